@@ -617,7 +617,7 @@ Lemma quiet_do_media h c sid s to mk stream media : get_sess h sid = Some s ->
 Proof.
   intros Hs. unfold do_media. destruct to as [i| | |]; try apply quiet_ret.
   destruct (N.eqb mk 0).
-  { destruct (negb (offer_allowed (s_perms s) stream media)); [apply quiet_err|].
+  { destruct (negb (offer_allowed (s_perms s) stream _)); [apply quiet_err|].
     destruct (aget (s_pubs s) stream) as [tok|]; [|apply quiet_start_create].
     eapply quiet_pre; [|now apply quiet_send_irr]. apply (same_put h sid s); [exact Hs|reflexivity|now apply pend_ok_eq]. }
   destruct (N.eqb mk 1).
